@@ -320,6 +320,7 @@ func C11(ctx *core.Ctx) {
 	}
 	ctx.Rule("C11.R1", "panic containment: Compile/Audit run under main's deferred recover; no goroutines in compiler packages; no process exit outside main", 4)
 	ctx.Rule("C11.R2", "recursion classification: structural / visited-guarded / validated-acyclic, else unguarded", 30)
+	ctx.Rule("C11.R5", "a visited-guarded search whose hit edge reports a cycle uses path discipline: the element added before the recursive call is removed again on every exit (otherwise a shared sub-structure is reported as a cycle)", 1)
 	ctx.Rule("C11.R3", "identifier-casing helpers index only elements proved to exist", 3)
 	res := cc.Resolver()
 
@@ -510,6 +511,79 @@ func C11(ctx *core.Ctx) {
 			}
 		}
 	}
+	// ---- R5 path discipline of cycle searches --------------------------------------------
+	for fn := range guardedFns {
+		ssax.Instrs(fn, func(in ssa.Instruction) {
+			iff, ok := in.(*ssa.If)
+			if !ok {
+				return
+			}
+			lk, ok := iff.Cond.(*ssa.Lookup)
+			if !ok {
+				if ex, isEx := iff.Cond.(*ssa.Extract); isEx && ex.Index == 1 {
+					lk, ok = ex.Tuple.(*ssa.Lookup)
+				}
+				if !ok {
+					return
+				}
+			}
+			if _, isMap := lk.X.Type().Underlying().(*types.Map); !isMap {
+				return
+			}
+			// only maps shared across the recursion (parameters / fields), not fresh locals
+			if _, isParam := ssax.Strip(lk.X).(*ssa.Parameter); !isParam {
+				return
+			}
+			// hit edge reports a cycle: returns the constant true or a non-nil error
+			hit := iff.Block().Succs[0]
+			reports := false
+			for ret, vs := range ReturnedValues(fn) {
+				if ret.Block() != hit {
+					continue
+				}
+				for _, v := range vs {
+					if c, isC := ssax.Strip(v).(*ssa.Const); isC && c.Value != nil && c.Value.String() == "true" {
+						reports = true
+					}
+				}
+				if !nilErrorReturn(ret) && fn.Signature.Results().Len() > 0 {
+					if _, isErr := fn.Signature.Results().At(fn.Signature.Results().Len() - 1).Type().Underlying().(*types.Interface); isErr {
+						reports = true
+					}
+				}
+			}
+			if !reports {
+				return
+			}
+			mkey := ssax.AddrKey(lk.X)
+			// the element is added …
+			var add *ssa.MapUpdate
+			ssax.Instrs(fn, func(x ssa.Instruction) {
+				if mu, isMU := x.(*ssa.MapUpdate); isMU && ssax.AddrKey(mu.Map) == mkey && ssax.AddrKey(mu.Key) == ssax.AddrKey(lk.Index) {
+					add = mu
+				}
+			})
+			if add == nil {
+				return
+			}
+			// … and removed again on every exit: a deferred delete after the add, or a delete on every path to a return
+			isDel := func(x ssa.Instruction) bool {
+				c, isC := ssax.AsCall(x)
+				if !isC || c.FullName() != "builtin.delete" {
+					return false
+				}
+				return ssax.AddrKey(c.Common.Args[0]) == mkey && ssax.AddrKey(c.Common.Args[1]) == ssax.AddrKey(lk.Index)
+			}
+			bad := ssax.PathFrom(fn, add, ssax.IsReturn, isDel)
+			construct := QName(fn) + " › cycle search over " + mkey + " removes the element on every exit"
+			if bad == nil {
+				ctx.Discharge("C11.R5", construct, cc.IPos(add), "delete("+mkey+", key) (deferred or explicit) precedes every return after the insertion")
+			} else {
+				ctx.Violate("C11.R5", construct, cc.IPos(add), "the set of elements on the current path is never shrunk: a declaration that mentions the same alias twice (a DAG, e.g. map<Id, Id>) is reported as a cycle and valid IDL is rejected", ssax.PathString(cc.V.Fset, bad)...)
+			}
+		})
+	}
+
 	// name-index recursions: need a validation pass over the same index
 	validate := cc.FnOpt("parser", "(*Frugal).validate")
 	for _, pd := range pend {
